@@ -16,6 +16,7 @@
 import os
 import errno
 import hashlib
+import random
 
 from mapproxy.util.fs import ensure_directory, write_atomic
 from mapproxy.image import ImageSource, is_single_color_image
@@ -177,29 +178,29 @@ class FileCache(TileCacheBase):
         log.debug('linking %r from %s to %s',
                   tile.coord, real_tile_loc, tile_loc)
 
-        # remove any file before symlinking.
-        # exists() returns False if it links to non-
-        # existing file, islink() test to check that
-        if os.path.exists(tile_loc) or os.path.islink(tile_loc):
-            os.unlink(tile_loc)
+        # nothing to do if tile_loc already is (a link to) the single color tile
+        # (for hard links rename() would be a no-op and leave the temporary name behind)
+        if os.path.exists(tile_loc) and os.path.samefile(real_tile_loc, tile_loc):
+            return
 
-        if self.link_single_color_images == 'hardlink':
+        # Create the link under a temporary name and rename it over tile_loc
+        # (same naming scheme as write_atomic). rename() replaces an existing
+        # file or link atomically: the tile is never missing while it is replaced.
+        path_tmp = tile_loc + '.tmp-' + str(random.randint(0, 99999999))
+        try:
+            if self.link_single_color_images == 'hardlink':
+                os.link(real_tile_loc, path_tmp)
+            else:
+                # Use relative path for the symlink
+                real_tile_loc = os.path.relpath(real_tile_loc, os.path.dirname(tile_loc))
+                os.symlink(real_tile_loc, path_tmp)
+            os.rename(path_tmp, tile_loc)
+        except OSError as ex:
             try:
-                os.link(real_tile_loc, tile_loc)
-            except OSError as e:
-                # ignore error if link was created by other process
-                if e.errno != errno.EEXIST:
-                    raise e
-        else:
-            # Use relative path for the symlink
-            real_tile_loc = os.path.relpath(real_tile_loc, os.path.dirname(tile_loc))
-
-            try:
-                os.symlink(real_tile_loc, tile_loc)
-            except OSError as e:
-                # ignore error if link was created by other process
-                if e.errno != errno.EEXIST:
-                    raise e
+                os.unlink(path_tmp)
+            except OSError:
+                pass
+            raise ex
 
         return
 
